@@ -100,7 +100,7 @@ def random_op(rng, files, weights):
         return {"op": "set_yml", "patterns": None if rng.random() < 0.2 else _patterns(rng),
                 "verbose": rng.choice((None, None, True, False))}
     if k == "set_gitignore":
-        return {"op": "set_gitignore", "patterns": None if rng.random() < 0.2 else _patterns(rng)}
+        return {"op": "set_gitignore", "patterns": None if rng.random() < 0.2 else _patterns(rng), "final_eol": rng.random() < 0.6}
     if k == "set_cli":
         return {"op": "set_cli", "patterns": _patterns(rng)}
     if k == "set_version":
